@@ -83,6 +83,17 @@ CHECKS["C06"] = (
     "DESIGN.md 6 (C06)",
 )
 
+CHECKS["C07"] = (
+    "model_checking",
+    "bounded-exhaustive enumeration of element types x length forms x positions x inputs against the reference model's flat decoding; exhaustive write-refusal table",
+    "22 element types x 12 length forms (fixed, expressions over an earlier field and #defines incl. a #define shadowed by a field, "
+    "null-terminated, to-end-of-stream) x 2 positions plus 2-D forms, both endiannesses/layouts/readers; inputs with <=2 deviating fields "
+    "(counts 0..3, array lengths 0..3, terminator absent, raw patterns): element count, contents, C order, consumed bytes and the "
+    "re-appended terminator equal the model; same-named but different element types in one cstruct; dumping a fixed-size non-character "
+    "array with a wrong number of elements (14 element types x sizes 0..3 x 3 contexts) must be refused.",
+    "DESIGN.md 6 (C07)",
+)
+
 NOT_APPLICABLE = {}
 
 
